@@ -1,6 +1,7 @@
 import OmbottModel.Model.BodyMixin
 import OmbottModel.Lemmas.Body
 import OmbottModel.Lemmas.Chunked
+import OmbottModel.Lemmas.HexSpell
 import OmbottModel.Gen.Body
 /-!
 C05 — Chunked transfer decoding is exact and rejects every truncation.
@@ -23,6 +24,18 @@ structure LegalEncoding (buf : Nat) (chunks : List Chunk) (ls le : Bytes) : Prop
   zero : pyIntHex ls = some 0
   lastFits : ls.length + le.length + 2 ≤ buf
 
+/-- **legal chunkings exist for every payload split and spelling**: any non-empty payload sent
+with its length in hex digits of either case with any number of leading zeros (`hexSpell`, the
+encoder the driver runs) and an extension that is empty or `;…` without LF is a `LegalChunk`;
+the zero spelled the same way is a legal last-chunk line.  So `chunked_decode` below covers all
+chunk sizes, hex case, leading zeros and extensions. -/
+theorem canonical_chunks_legal (payload : Bytes) (u : Bool) (zeros : Nat) (ext : Bytes) (hp : payload ≠ [])
+    (hext : ext = [] ∨ ∃ e, ext = SEM :: e ∧ ∀ b ∈ e, b ≠ LF) :
+    LegalChunk { payload := payload, spelling := hexSpell u zeros payload.length, ext := ext } ∧
+    LegalLine (hexSpell u zeros 0) ext ∧ pyIntHex (hexSpell u zeros 0) = some 0 :=
+  ⟨legalChunk_canonical payload u zeros ext hp hext, legalLine_hexSpell u zeros 0 ext hext,
+   pyIntHex_hexSpell u zeros 0⟩
+
 /-- **exact decoding**: for every legal encoding in which each size line, its CRLF included, is at
 most `buf` bytes, every read schedule, every trailer, and a payload within the size limit,
 `_body_read(chunked=True)` returns exactly the concatenation of the chunk payloads (file-backed
@@ -38,6 +51,20 @@ theorem chunked_decode (buf : Nat) (max : Option Nat) (cl : Int) (chunks : List 
   obtain ⟨r', h1, h2, h3⟩ := iterChunked_decode buf max ls le trailer hleg.last hleg.zero hleg.lastFits
     chunks r {} hleg.chunks hd (SinkInv.init buf) (by simpa using hmax)
   exact ⟨r', by simp [bodyRead, h1, bodyOf_eq], h2, h3⟩
+
+/-- the same through `Request.body`: a request whose Transfer-Encoding header mentions `chunked`
+(any case, any position) and whose Content-Length header is absent or numeric gets exactly the
+concatenated payloads, and the buffered copy is cached -/
+theorem request_chunked_exact (cfg : Cfg) (clh te : Option Str) (input : Rec) (cl : Int)
+    (chunks : List Chunk) (ls le trailer : Bytes)
+    (hte : isChunked te = true) (hcl : contentLength clh = .ok cl)
+    (hleg : LegalEncoding cfg.memfile chunks ls le)
+    (hd : input.st.data = encodeChunked chunks ls le trailer)
+    (hmax : overMax cfg.maxBody (payloadOf chunks).length = false) :
+    (({ cfg := cfg, clHeader := clh, teHeader := te, input := input } : Req).body).1 =
+      .ok (bodyOf cfg.memfile (payloadOf chunks)) := by
+  obtain ⟨r', h1, -, -⟩ := chunked_decode cfg.memfile cfg.maxBody cl chunks ls le trailer input hleg hd hmax
+  simp [Req.body, Req.loadBody, hcl, hte, h1]
 
 /-- **totality**: for every byte string, schedule, buffer and limit the chunked reader returns a
 body, `BodyParsingError` or `BodySizeError` — no other exception (and it terminates: the model
@@ -214,6 +241,9 @@ example : LegalEncoding 8
     · exact ⟨⟨⟨by decide, Or.inl rfl⟩, by decide, by decide⟩, by decide⟩
     · exact ⟨⟨⟨by decide, Or.inr ⟨[120], rfl, by decide⟩⟩, by decide, by decide⟩, by decide⟩,
    ⟨by decide, Or.inl rfl⟩, by decide, by decide⟩
+/-- `request_chunked_exact`: header spellings that select the chunked reader -/
+example : isChunked (some "Chunked".toList) = true ∧ isChunked (some "gzip, chunked".toList) = true ∧
+    contentLength none = .ok (-1) := ⟨by decide, by decide, rfl⟩
 /-- `chunked_prefix_rejected`: a cut right before the final LF of `2\r\nhi\r\n0\r\n` -/
 example : (9 : Nat) < (encodeChunks [⟨[104, 105], [50], []⟩]).length + ([48] : Bytes).length + ([] : Bytes).length + 2 := by
   decide
